@@ -18,10 +18,10 @@ func init() {
 			ID: "C15",
 			Explanation: "That the deliver-time recomputation of a trade (run with minimum 0 / maximum supply) reproduces the amounts the check phase compared with the user's limit is arithmetic and is NOT decided. Decided: " +
 				"(limit) in every live handler whose data carries MinimumValueToBuy / MaximumValueToSell, that field flows, in the validation phase (outside the deliver block), into a comparison whose failing edge rejects — directly (`value.Cmp(limit)` of the bancor handlers) or as the valueOut (sell) / valueIn (buy) argument of CheckSwap with the matching isBuy constant, whose non-nil response is returned; inside CheckSwap those parameters govern the MinimumValueToBuyReached / MaximumValueToSellReached rejections with the right polarity (calculated < minimum, calculated > maximum); " +
-				"(tags) the amounts printed in tx.return and tx.sell_amount have the same call-result origins as an amount actually credited to / debited from tx.Sender() in the same deliver block; " +
+				"(hopsim) inside the route loops the simulated fee conversion (AddLastSwapStepWithOrders) is guarded by a comparison of tx.GasCoin with the current hop's coin and an IsBaseCoin() test of the hop's other coin — per-hop conditions, not ones computed before the loop; (tags) the amounts printed in tx.return and tx.sell_amount have the same call-result origins as an amount actually credited to / debited from tx.Sender() in the same deliver block; " +
 				"(sellall) a sell-all handler debits the sender's whole balance of the sold coin: the debited amounts have the GetBalance(tx.Sender(), coin to sell) read as an origin and the amount handed to the trade is that balance minus the commission.",
 			Assumptions: stdAssumptions,
-			Rules:       []string{"C15.limit", "C15.checkswap", "C15.tags", "C15.sellall"},
+			Rules:       []string{"C15.limit", "C15.checkswap", "C15.tags", "C15.sellall", "C15.hopsim"},
 		},
 		Run: runC15,
 	})
@@ -155,8 +155,9 @@ func blockRejects(b *ssa.BasicBlock) bool {
 }
 
 func runC15(c *core.Ctx) {
-	nLimit, nTags := 0, 0
+	nLimit, nTags, nHop := 0, 0, 0
 	for _, m := range LiveModels(c, "C15.limit") {
+		nHop += checkHopSimulation(c, "C15.hopsim", m)
 		_, st := structOfType(m.H.Type)
 		if st == nil {
 			continue
@@ -180,6 +181,7 @@ func runC15(c *core.Ctx) {
 	}
 	c.Floor("C15.limit", nLimit, 6, "live handlers with a slippage limit field")
 	c.Floor("C15.tags", nTags, 6, "result tags checked against balance changes")
+	c.Floor("C15.hopsim", nHop, 4, "simulated fee-conversion steps inside route loops")
 	checkCheckSwap(c)
 }
 
@@ -519,4 +521,64 @@ func checkSellAll(c *core.Ctx, m *RunModel) {
 		}
 	}
 	c.Check(len(balances) > 0 && debitHasBalance, "C15.sellall", name+"/whole-balance", m.Fn.Pos(), "the amount debited from the sender derives from GetBalance(tx.Sender(), coin to sell) read in the validation phase", "a sell-all handler no longer debits an amount derived from the sender's whole balance of the sold coin")
+}
+
+// checkHopSimulation — the route handlers price every hop of a multi-pool trade in the validation
+// phase; when the fee is converted through one of the route's pools, deliver converts the fee
+// FIRST, so the validation phase must apply that conversion to the simulated pool
+// (AddLastSwapStepWithOrders) on exactly the hop that goes through the fee pool. Which hop that is
+// is a per-hop question: the guards of the simulation step inside the route loop must compare
+// tx.GasCoin with the CURRENT hop's coins. A guard computed once before the loop (from the
+// route's first coin, say) applies the correction on the wrong hops or not at all, and the trade
+// then executes past the user's limit although the check accepted it.
+func checkHopSimulation(c *core.Ctx, rule string, m *RunModel) int {
+	n := 0
+	loopVariant := func(v ssa.Value) bool {
+		return core.DependsOn(v, func(x ssa.Value) bool {
+			switch y := x.(type) {
+			case *ssa.Phi:
+				return core.InCycle(y.Block())
+			case *ssa.Next:
+				return true
+			}
+			return false
+		})
+	}
+	for _, s := range core.Sites(m.Fn) {
+		if methodName(s) != "AddLastSwapStepWithOrders" || !core.InCycle(s.Block()) || m.InDeliver(s.Block()) {
+			continue
+		}
+		n++
+		gasVsHop, baseOfHop := false, false
+		for _, g := range core.GatesBefore(s.Instr) {
+			if !core.InCycle(g.If.Block()) || !g.PassTrue {
+				continue
+			}
+			switch x := g.If.Cond.(type) {
+			case *ssa.BinOp:
+				if x.Op != token.EQL {
+					continue
+				}
+				a, b := x.X, x.Y
+				isGas := func(v ssa.Value) bool {
+					p := core.Path(v)
+					return strings.HasSuffix(p, ".GasCoin") || strings.HasSuffix(p, ".CommissionCoin()")
+				}
+				if isGas(b) {
+					a, b = b, a
+				}
+				if isGas(a) && loopVariant(b) {
+					gasVsHop = true
+				}
+			case *ssa.Call:
+				if methodNameOfCall(x) == "IsBaseCoin" && len(x.Call.Args) > 0 && loopVariant(x.Call.Args[0]) {
+					baseOfHop = true
+				}
+			}
+		}
+		key := fmt.Sprintf("%s/hop-simulation#%d", m.H.TypeName, n)
+		c.Check(gasVsHop && baseOfHop, rule, key, s.Pos(), "the fee-conversion step is simulated on the hop whose own coins are (gas coin, base coin)",
+			fmt.Sprintf("the simulated fee conversion inside the route loop is not guarded by a comparison of tx.GasCoin with the current hop's coin and an IsBaseCoin() test of the current hop's other coin (gas-vs-hop:%v base-of-hop:%v): the correction is applied to the wrong hop, so the limit is checked against pools that deliver will have moved", gasVsHop, baseOfHop))
+	}
+	return n
 }
